@@ -32,7 +32,7 @@ SLOT_OPS = {
 
 
 def nslot_ops():
-    return 16 if hlib.TIER == "thorough" else 8
+    return 12 if hlib.TIER == "thorough" else 8
 
 
 def op_by_name(kind, name):
@@ -56,7 +56,7 @@ def prog(pat: int, s1: int, s2: int, s3: int, exc: int) -> bool:
     nh = max(1, hlib.NPARTS // len(PARTS))
     pattern = pick(PATTERNS[half::nh], pat)
     n = nslot_ops()
-    third = list(range(8)) if hlib.TIER == "thorough" else [0, 3, 4, 7]  # quick: last slot write / clear / reset / read-back
+    third = [0, 3, 4, 7, 8, 9] if hlib.TIER == "thorough" else [0, 3, 4, 7]  # quick: last slot write / clear / reset / read-back
     sel = [pick(list(range(n)), s1), pick(list(range(n)), s2), pick(third, s3)]
     exc = pick([0, 1], exc)
     if pattern is None or None in sel or exc is None:
@@ -250,7 +250,7 @@ FUNCTIONS = [
     "synced_collections.data_types.synced_list:SyncedList._update",
 ]
 BOUNDS = {"quick": {"classes": 8, "context_patterns": PATTERNS, "operation_slots": 3, "slot_operations": {k: v[:8] for k, v in SLOT_OPS.items()}, "third_slot": "4 of the 8", "last_exit": "normal or caused by an exception", "symbolic_value_harness": "2 operations, symbolic int leaves"},
-          "thorough": {"classes": 8, "context_patterns": PATTERNS, "operation_slots": 3, "slot_operations": SLOT_OPS}}
+          "thorough": {"classes": 8, "context_patterns": PATTERNS, "operation_slots": 3, "slot_operations": {k: v[:12] for k, v in SLOT_OPS.items()}, "third_slot": "6 of the 12"}}
 ASSUMPTIONS = [
     "`prog`: every selector is finite and decided by the solver's path tree; the decided program then runs the real code natively with concrete leaves (exhaustive enumeration of the bounded program space, not a symbolic claim over values); `values` keeps the leaves symbolic",
     "environment models of vf/env_model.py; default buffer capacity except in the four patterns with capacity 1 (there the file may be written before the exit, everything else is demanded unchanged)",
